@@ -183,6 +183,50 @@ def backward_once(family, n, count=True):
     return res
 
 
+def job_heads(spec):
+    """several roots ("heads") over one shared recorded trunk, differentiated one after the other: in EVERY sweep each operation reachable from that root runs
+    exactly once, and the leaf accumulates the sum of the heads' derivatives"""
+    import numpy as np
+    from synapgrad.functional import BackwardFunction
+    out = []
+    for n, heads in spec["configs"]:
+        b = Builder()
+        trunk, d = b.chain(b.leaf, n)
+        if trunk.ndim != 1:
+            trunk = b.F.reshape(trunk, (3,))
+        cs = [1.0 + 0.25 * i for i in range(heads)]
+        roots = [trunk * b.sg.tensor([c, c, c], dtype=np.float64) for c in cs]
+        calls = {}
+        orig = BackwardFunction.__call__
+
+        def counted(self):
+            calls[id(self)] = calls.get(id(self), 0) + 1
+            return orig(self)
+        res = {"trunk_ops": n, "heads": heads, "sweeps": []}
+        BackwardFunction.__call__ = counted
+        try:
+            for r in roots:
+                fns = recorded_ops(r)
+                calls.clear()
+                try:
+                    r.backward(b.sg.tensor(np.ones(3), dtype=np.float64))
+                except BaseException as e:
+                    if isinstance(e, (KeyboardInterrupt, SystemExit)):
+                        raise
+                    res["sweeps"].append({"completed": False, "exception": type(e).__name__, "message": str(e)[:200]})
+                    break
+                res["sweeps"].append({"completed": True, "recorded_ops": len(fns), "calls_total": sum(calls.values()), "calls_max_per_op": max(calls.values(), default=0),
+                                      "ops_never_called": len(set(fns) - set(calls))})
+        finally:
+            BackwardFunction.__call__ = orig
+        g = b.leaf._grad
+        expected = d * sum(cs)
+        res["grad"], res["expected"] = (None if g is None else np.asarray(g).tolist()), expected.tolist()
+        res["grad_rel_err"] = None if g is None else float(np.max(np.abs(np.asarray(g) - expected) / np.abs(expected)))
+        out.append(res)
+    return {"configs": out}
+
+
 def job_dags(spec):
     """many small random DAGs in one child: returns only the failing ones (and the count)"""
     import numpy as np
@@ -329,7 +373,7 @@ def run_job(spec, timeout=240):
 
 if __name__ == "__main__":
     spec = json.loads(sys.argv[1])
-    result = job_graph(spec) if spec["kind"] == "graph" else (job_dags(spec) if spec["kind"] == "dags" else job_untracked(spec))
+    result = {"graph": job_graph, "dags": job_dags, "heads": job_heads}.get(spec["kind"], job_untracked)(spec)
     print("RESULT " + json.dumps(result), flush=True)
     sys.stdout.flush()
     os._exit(0)          # skip interpreter teardown of very deep object graphs; the result is already written
